@@ -53,12 +53,20 @@ def theorem_names(prop):
     return [f"{namespace}.{n}" if namespace else n for n in names]
 
 
+def model_exe(prop):
+    cfg = PROPS.PROPS[prop]
+    return cfg.get("model_exe", "askar_model_store" if not cfg.get("feature") else "askar_model_" + prop.lower())
+
+
 def lean_check(prop, thorough, log):
     """build the property module, audit axioms; returns (obligations, discharged, failures[list of str], checker_cmd)"""
     failures = []
     mod = f"AskarModel.Props.{prop}"
     with Lock("lake"):
-        rc, out, err = run(["lake", "build", mod, "askar_model"], cwd=LEAN, timeout=3000)
+        global MODEL_BIN
+        exe = model_exe(prop)
+        MODEL_BIN = os.path.join(LEAN, ".lake", "build", "bin", exe)
+        rc, out, err = run(["lake", "build", mod, exe], cwd=LEAN, timeout=3000)
         log.write(out + err)
         names = theorem_names(prop)
         if rc != 0:
@@ -110,12 +118,24 @@ def lean_check(prop, thorough, log):
 # --------------------------------------------------------------------------------------------
 # Harness side
 
-def cargo_build(log):
+def cargo_build(log, feature=None):
+    """builds the harness with only the module(s) this property needs (so that unrelated modules cannot break the
+    check) and keeps a private copy of the binary per feature set"""
+    global HBIN
     with Lock("cargo"):
-        lock_src = os.path.join(REPO, "Cargo.lock")
-        # the harness resolves its dependencies from the repository's own lock file
-        rc, out, err = run(["cargo", "build", "--offline"], cwd=HARNESS, timeout=3000)
+        cmd = ["cargo", "build", "--offline", "--no-default-features"]
+        if feature:
+            cmd += ["--features", feature]
+        rc, out, err = run(cmd, cwd=HARNESS, timeout=3000)
         log.write(out[-5000:] + err[-20000:])
+        if rc == 0:
+            bindir = os.path.join(HARNESS, "bin")
+            os.makedirs(bindir, exist_ok=True)
+            dst = os.path.join(bindir, "askar_harness-" + (feature or "base").replace(",", "+"))
+            tmp = dst + f".tmp{os.getpid()}"
+            shutil.copy2(os.path.join(HARNESS, "target", "debug", "askar_harness"), tmp)
+            os.replace(tmp, dst)
+            HBIN = dst
         return rc == 0, err
 
 
@@ -289,7 +309,7 @@ def main(argv):
     proof_broken = bool(lean_fail)
 
     # 3. harness
-    ok, cerr = cargo_build(log)
+    ok, cerr = cargo_build(log, cfg.get("feature"))
     if not ok:
         print(cerr[-3000:])
         add_violation("harness-build", {"what": "the correspondence harness no longer builds against /repo", "stderr": cerr[-3000:],
